@@ -190,6 +190,9 @@ class Interp(object):
             return km_make(self, st, name, args[0])
         if head == "PyList":
             n = int(args[0])
+            if len(args) == n + 1 and n > 1:
+                # PyList[n,T1,...,Tn]: a list display of n items of these types (one type per item)
+                return self.new_cell(st, PyListCell([self.make(args[k + 1], "%s_%d" % (name, k), st) for k in range(n)]))
             return self.new_cell(st, PyListCell([self.make(args[1], "%s_%d" % (name, k), st) for k in range(n)]))
         if head == "Tuple":
             return Tup([self.make(a, "%s_%d" % (name, k), st) for k, a in enumerate(args)])
@@ -226,11 +229,29 @@ class Interp(object):
                     cell.step, cell.stop, cell.has_stop = int(k), fields[b].t, fields[c].t
                     fields[f] = self.new_cell(st, cell)
                     continue
+                if fty.startswith("Closure["):
+                    # a field holding a function object made from a registered lambda expression whose free variables are
+                    # other fields of the same object (ContractIndex.closures, see lib_flow.make_closure)
+                    from .lib_flow import make_closure
+                    fields[f] = make_closure(self, fty[8:-1].strip(), fields)
+                    continue
                 fields[f] = self.make(fty, "%s.%s" % (name, f), st)
             return self.new_cell(st, ObjCell(cls, fields))
+        if head == "Builtin":
+            if args[0] not in BUILTINS:
+                raise Unsupported("Builtin[%s]" % args[0])
+            return Fun("builtin", name=args[0])          # a field / parameter holding that python builtin (e.g. `tuple`)
         if head == "Fn":
             from .histlib import make_fn          # typed abstract callable Fn[A1,...,R]
             return make_fn(self, args, name, st)
+        if head == "Def":
+            # a field / parameter holding a module-level function of the repository (Def[lena.pkg.module.name]): calls go
+            # through that function's contract (or its real AST if the contract is inline=True)
+            modname, _, attr = args[0].strip().rpartition(".")
+            f = self.world.module_attr(modname, attr, self)
+            if not (isinstance(f, Fun) and f.kind in ("contract", "moddef")):
+                raise Unsupported("Def[%s]: not a function of the repository" % args[0])
+            return f
         raise Unsupported("type " + ty)
 
     def lst_sort(self, elemty):
@@ -305,7 +326,21 @@ class Interp(object):
         """write a new term at a (possibly nested) list / Val position"""
         cell = st.heap[ref.cid]
         if ref.cid in st.notes.get("unknown_alias", ()):
-            raise Unsupported("store through a name that a loop re-binds (the object it refers to is not known there)")
+            if not (self.c is not None and self.c.ghost.get("alias_store") and isinstance(cell, ValCell)
+                    and ref.cid in st.notes.get("alias_epoch", {})):
+                raise Unsupported("store through a name that a loop re-binds (the object it refers to is not known there)")
+            # opt-in (Contract(ghost={"alias_store": True})): the name may refer to ANY dictionary object that existed at
+            # the loop head: the store is done on the name's own (unknown) object and every such object gets unknown
+            # content (it may be the one that changed); they must be listed in `modifies`
+            ep = st.notes["alias_epoch"][ref.cid]
+            for cid2, c2 in list(st.heap.items()):
+                if cid2 != ref.cid and isinstance(c2, ValCell) and int(cid2[1:]) <= ep:
+                    st.heap[cid2] = ValCell(self.reg.new("mayalias", "Val"))
+        elif isinstance(cell, ValCell) and st.notes.get("alias_epoch"):
+            # ... and conversely: a store into an object that a loop-rebound name may refer to
+            for cid2, ep in st.notes["alias_epoch"].items():
+                if cid2 != ref.cid and cid2 in st.heap and int(ref.cid[1:]) <= ep:
+                    st.heap[cid2] = ValCell(self.reg.new("mayalias", "Val"))
         if isinstance(cell, ValCell) and not ref.path and ref.cid in st.notes.get("iterating", ()) \
                 and not getattr(self, "_iter_store_ok", False):
             # only the VALUE of an existing key may be replaced while `for key in d` runs (see dicts.for_dict)
@@ -313,7 +348,13 @@ class Interp(object):
         if isinstance(cell, LstCell):
             st.heap[ref.cid] = LstCell(self._store_path(cell.term, ref.path, newterm))
         elif isinstance(cell, ValCell):
+            dobj = self.c is not None and self.c.ghost.get("dict_objects")
+            if dobj:
+                from . import dictobj      # dictionaries as objects with tracked aliases (opt-in, see pyvc/dictobj.py)
+                dictobj.check_store(self, st, ref)
             st.heap[ref.cid] = ValCell(self._vstore_path(cell.term, ref.path, newterm))
+            if dobj:
+                dictobj.after_store(self, st, ref.cid)
         elif type(cell).__name__ == "KeyMapCell":
             from .keymap import km_store
             km_store(self, st, ref, newterm)
@@ -440,9 +481,58 @@ class Interp(object):
                 return T("(vtruthy %s)" % self.deref(st, v).s, "Bool")
             if isinstance(cell, PyDictCell):
                 return TRUE if cell.items else FALSE
-            if isinstance(cell, (ObjCell, IterCell)):
+            if isinstance(cell, ObjCell):
+                # an instance is true unless its class says otherwise: __bool__ / __len__ (python data model)
+                m = self.truth_method(cell.cls)
+                if m is None:
+                    return TRUE
+                k = self.contracts.find_method(cell.cls, m)
+                if k is None:
+                    raise Unsupported("truth of an instance of %s, whose class defines %s (no contract for it)" % (cell.cls, m))
+                from .calls import apply_contract
+                outs = apply_contract(self, st, k, [v], {})
+                if len(outs) != 1 or outs[0][0] is not st:
+                    raise Unsupported("truth of an instance of %s: %s forks" % (cell.cls, m))
+                return self.truth(st, outs[0][1])
+            if isinstance(cell, IterCell):
                 return TRUE
         raise Unsupported("truth of %r" % (v,))
+
+    def truth_method(self, cls):
+        """name of the method that decides the truth value of instances of the class (ClassSpec name): `__bool__`, else
+        `__len__`, searched in the class statement of the real class and of the bases the ClassSpecs declare; None when
+        there is none (file-like ghost objects and classes without a ClassSpec: none)"""
+        import ast as _ast
+        seen, todo = set(), [cls]
+        found = None
+        while todo:
+            k = todo.pop(0)
+            if k in seen:
+                continue
+            seen.add(k)
+            cs = self.contracts.classes.get(k)
+            if cs is None:
+                continue
+            real = cs.alias_of or k
+            if real != k:
+                todo.append(real)
+            todo += list(cs.bases)
+            try:
+                tree = self.world.modctx(cs.file).tree
+            except Exception:
+                continue
+            for n in _ast.walk(tree):
+                if isinstance(n, _ast.ClassDef) and n.name == real:
+                    for b in n.body:
+                        if isinstance(b, _ast.FunctionDef) and b.name == "__bool__":
+                            return "__bool__"
+                        if isinstance(b, _ast.FunctionDef) and b.name == "__len__":
+                            found = found or "__len__"
+                    for b in n.bases:
+                        bn = b.attr if isinstance(b, _ast.Attribute) else b.id if isinstance(b, _ast.Name) else None
+                        if bn and bn in self.contracts.classes:
+                            todo.append(bn)
+        return found
 
     def py_eq(self, st, a, b):
         """python `==` as a Bool term"""
@@ -458,6 +548,9 @@ class Interp(object):
                 return AND(EQ(a.present, b.present), IMP(a.present, EQ(a.t, b.t)))
             raise Unsupported("== between %r and %r" % (a, b))
         if isinstance(a, Num) and isinstance(b, Num):
+            la, lb = lit_int(a.t), lit_int(b.t)
+            if la is not None and lb is not None:
+                return TRUE if la == lb else FALSE          # two integer literals (no infeasible fork on `2 == 1`)
             return EQ(a.t, b.t)
         if isinstance(a, Bool) and isinstance(b, Bool):
             return EQ(a.t, b.t)
@@ -531,6 +624,11 @@ class Interp(object):
             return EQ(self.deref(st, a), b.t)
         if isinstance(b, Ref) and isinstance(st.heap[b.cid], ValCell) and isinstance(a, Opaque) and a.sort == "Val":
             return EQ(a.t, self.deref(st, b))
+        for x, y in ((a, b), (b, a)):
+            if isinstance(x, Opaque) and x.sort == "Obj" and isinstance(y, Fun) and y.kind == "builtin":
+                # an abstract object compared with a python builtin (`container == tuple`): it may be that very builtin
+                f = self.reg.ufun("obj_is_builtin_%s" % y.name, ["Obj"], "Bool")
+                return T("(%s %s)" % (f, x.t.s), "Bool")
         raise Unsupported("== between %r and %r" % (a, b))
 
     def v_eq(self, st, v, other):
@@ -564,10 +662,33 @@ class Interp(object):
             return TRUE
         if isinstance(a, Tup) or isinstance(b, Tup):
             return FALSE          # a tuple built by a display is a new object: identical only to itself
+        for x, y in ((a, b), (b, a)):
+            if isinstance(y, NoneV) and isinstance(x, Opaque) and x.sort == "Val":
+                # `<context value> is None`: a context item may well be None (the scalar None of the encoding)
+                from .dicts import scalar
+                return EQ(x.t, scalar(self, st, y))
         if isinstance(a, NoneV) or isinstance(b, NoneV):
             return TRUE if (isinstance(a, NoneV) and isinstance(b, NoneV)) else FALSE
+        for x, y in ((a, b), (b, a)):
+            if isinstance(x, Sentinel) and x.name.startswith("anon") and isinstance(y, Opaque) and y.sort == "Val":
+                # a LOCAL sentinel (`_s = object()`) that was handed to a callee as a context value (dicts.scalar): it
+                # is that one scalar; a context value `is` the sentinel iff it equals it
+                from .dicts import scalar
+                return EQ(y.t, scalar(self, st, x))
         if isinstance(a, Sentinel) or isinstance(b, Sentinel):
             return TRUE if (isinstance(a, Sentinel) and isinstance(b, Sentinel) and a.name == b.name) else FALSE
+        if isinstance(a, Ref) and isinstance(b, Ref) and a.cid != b.cid and (len(a.path) == 1) != (len(b.path) == 1) \
+                and not (a.path and b.path) and isinstance(st.heap.get(a.cid), ValCell) and isinstance(st.heap.get(b.cid), ValCell) \
+                and not any(isinstance(p, Seg) for p in a.path + b.path):
+            # `d[k] is x`: the item of one dictionary object and another dictionary object.  With dictionaries as objects
+            # (pyvc/dictobj.py) the links tell; otherwise the engine does not track which object an item is
+            item, obj = (a, b) if a.path else (b, a)
+            if self.c is not None and self.c.ghost.get("dict_objects"):
+                from . import dictobj
+                live = any(c == obj.cid and p == item.cid and key.s == item.path[0].s and status == "live"
+                           for c, p, key, status in dictobj.get(st).links)
+                return TRUE if live else FALSE
+            raise Unsupported("`is` between a dictionary item and a dictionary object (identity of items is not tracked here)")
         if isinstance(a, Ref) and isinstance(b, Ref):
             if a.cid == b.cid and a.path != b.path and any(isinstance(p, Seg) for p in a.path + b.path):
                 from .dicts import same_ref
@@ -695,6 +816,16 @@ class Interp(object):
         for s, vals in self.ev_many(list(e.keys) + list(e.values), st):
             n = len(e.keys)
             keys, values = vals[:n], vals[n:]
+            if self.c is not None and self.c.ghost.get("dict_objects") and not self.spec_mode:
+                # dictionaries as objects (pyvc/dictobj.py): a display is a new dictionary object that receives its items
+                # one after the other (dictionary / list objects among them are linked, not copied)
+                from .dicts import val_store
+                self.reg.need_val()
+                r = self.new_cell(s, ValCell(T("(D emptymap)", "Val")))
+                for k, v in zip(keys, values):
+                    val_store(self, s, r, k, v)
+                out.append((s, r))
+                continue
             if not all(isinstance(k, Str) for k in keys):
                 # a display with computed keys: a dictionary value
                 from .dicts import dterm
@@ -826,6 +957,9 @@ class Interp(object):
                 s.assume(NOT(EQ(r, ta)))
             if isinstance(a, Str) and a.s:
                 s.assume(NOT(EQ(r, tb)))
+            if self.c is not None and self.c.ghost.get("paths"):
+                from .lib import kcat_facts      # contracts about file names: more facts of string concatenation
+                kcat_facts(self, s, r, a, b, ta, tb)
             return [(s, Opaque(r))]
         if isinstance(op, ast.Mod) and isinstance(a, Str):
             return [(s, Str("<formatted>"))]
@@ -993,8 +1127,21 @@ class Interp(object):
                 cspec = self.contracts.classes.get(cell.cls)
                 if cspec is not None and attr in cspec.class_attrs:
                     return [(s, self.const_sv(cspec.class_attrs[attr]))]
+                if cspec is not None and not self.spec_mode and attr.startswith("_") and not attr.startswith("__"):
+                    # a private method the class defines in its source but that has no contract (typically a helper a
+                    # refactoring has extracted): executed in place from its real AST
+                    from .calls import auto_inline_contract
+                    real = cspec.alias_of or cell.cls
+                    k = auto_inline_contract(self, cspec.file, "%s.%s" % (real, attr))
+                    if k is not None:
+                        return [(s, Fun("bound", contract=k, self_ref=v, name=attr))]
                 if default is not None:
                     return [(s, default)]
+                ga = self.contracts.find_method(cell.cls, "__getattr__") if not self.spec_mode else None
+                if ga is not None:
+                    # the class defines __getattr__ (under contract): python calls it for attributes not found otherwise
+                    from .calls import apply_contract
+                    return apply_contract(self, s, ga, [v, Str(attr)], {})
                 if self.spec_mode:
                     raise Unsupported("spec reads unknown field %s.%s" % (cell.cls, attr))
                 # attribute may be absent on this path: AttributeError
@@ -1008,6 +1155,11 @@ class Interp(object):
             return [(s, Fun("elem-method", elem=v, name=attr))]
         if isinstance(v, Tup) and attr in getattr(v, "ntfields", ()):
             return [(s, v.items[v.ntfields.index(attr)])]          # field of a namedtuple instance
+        if isinstance(v, Opaque) and v.sort == "V":
+            from .vmembers import attr_value          # a declared data attribute of an abstract flow value
+            av = attr_value(self, v, attr)
+            if av is not None:
+                return [(s, av)]
         if isinstance(v, (View, Tup, Str, Opaque)):
             return [(s, Fun("method", recv=v, name=attr))]
         if isinstance(v, Fun) and v.kind == "super":
@@ -1018,7 +1170,14 @@ class Interp(object):
                 if k is not None:
                     return [(s, Fun("bound", contract=k, self_ref=v.self_ref, name=attr))]
             raise Unsupported("super(%s, self).%s: no contract in the bases" % (v.cls, attr))
+        if isinstance(v, Fun) and v.kind == "builtin" and v.name == "object" and attr in ("__setattr__", "__getattribute__"):
+            # object.__setattr__(obj, name, value) / object.__getattribute__(obj, name): the plain instance attribute
+            # protocol, by-passing a __setattr__ / __getattr__ the class defines
+            return [(s, Fun("builtin", name="object." + attr))]
         if isinstance(v, Fun) and v.kind == "class":
+            k = self.contracts.find_method(v.name, attr)
+            if k is not None and k.self_class == "static":
+                return [(s, Fun("contract", contract=k))]          # Class.staticmethod
             return [(s, Fun("classattr", cls=v.name, name=attr))]
         if isinstance(v, Fun) and v.kind == "external" and v.mod == "sys" and v.name == "version_info" and attr == "major":
             return [(s, Num(I(3)))]      # python-2 branches are folded away (DESIGN 2.4 item 8)
@@ -1173,6 +1332,9 @@ class Interp(object):
                 self.emit("safety", "key-present", s, has)
                 s.assume(has)
         if ref is not None:
+            if not ref.path and not self.spec_mode and self.c is not None and self.c.ghost.get("dict_objects"):
+                from . import dictobj      # the item as an OBJECT with a home cell of its own (pyvc/dictobj.py)
+                return [(s, dictobj.child_ref(self, s, ref, k))]
             return [(s, Ref(ref.cid, ref.path + (k,)))]
         return [(s, Opaque(T("(vget %s %s)" % (dterm.s, k.s), "Val")))]
 
@@ -1188,6 +1350,13 @@ class Interp(object):
             l = lit_int(self.num(lo)) if lo is not None and not isinstance(lo, NoneV) else None
             h = lit_int(self.num(hi)) if hi is not None and not isinstance(hi, NoneV) else None
             return Str(v.s[l:h])
+        if (isinstance(v, Opaque) and v.sort in ("Key", "Val")) or (isinstance(v, Ref) and isinstance(s.heap[v.cid], ValCell)):
+            # s[n:] of a symbolic string (a context item must be a string: obligation), n a non-negative literal
+            k0 = lit_int(self.num(lo)) if lo is not None and not isinstance(lo, NoneV) else None
+            if k0 is None or k0 < 0 or not (hi is None or isinstance(hi, NoneV)):
+                raise Unsupported("slice of a symbolic string other than s[n:]")
+            from .lib import str_operand, symstr_tail
+            return symstr_tail(self, self.key_term(str_operand(self, s, v, "slicing")), k0)
         if (lo is None or isinstance(lo, NoneV)) and (hi is None or isinstance(hi, NoneV)) and isinstance(v, Ref) \
                 and isinstance(s.heap[v.cid], LstCell):
             return self.new_cell(s, LstCell(self.deref(s, v)))        # l[:] -- a new list with the same items
@@ -1244,7 +1413,20 @@ class Interp(object):
         # a list comprehension is evaluated eagerly: its items are computed in the state as it is NOW (a snapshot), not
         # in whatever the state object holds when the symbolic view is looked at later
         snap = st.copy()
-        v = self.comprehension(e, snap)
+        n_vcs, n_exc = len(self.vcs), len(self._exc_out)
+        try:
+            v = self.comprehension(e, snap)
+        except Unsupported as ex:
+            # an item expression that forks (e.g. get_data_context of an abstract flow value: pair or bare data) over a
+            # list of concrete length: the items are evaluated one after the other, every alternative in its own state
+            if "forks in a non-forking context" not in str(ex) or self.spec_mode:
+                raise
+            del self.vcs[n_vcs:]
+            del self._exc_out[n_exc:]
+            alts = self.listcomp_forking(e, st)
+            if alts is None:
+                raise
+            return alts
         if v.items is not None:
             for cid, cell in snap.heap.items():          # lists created by the item expressions
                 if cid not in st.heap:
@@ -1254,6 +1436,38 @@ class Interp(object):
             return [(st, self.new_cell(st, PyListCell(v.items)))]
         from .histlib import symbolic_listcomp
         return [(st, symbolic_listcomp(self, st, snap, v))]
+
+    def listcomp_forking(self, e, st):
+        """[elt for target in <sequence of concrete length>] where evaluating elt forks: list of (state, new list), one per
+        combination of alternatives (python's order: item by item, each in the state the previous one left); None when
+        the comprehension is not of this form"""
+        if len(e.generators) != 1 or e.generators[0].is_async or e.generators[0].ifs:
+            return None
+        g = e.generators[0]
+        itv = self.ev1(g.iter, st)
+        if isinstance(itv, Ref) and isinstance(st.heap[itv.cid], IterCell):
+            return None
+        src = self.as_view(st, itv)
+        if src.items is None:
+            return None
+        names = [n.id for n in ast.walk(g.target) if isinstance(n, ast.Name)]
+        alts = [(st, [])]
+        for x in src.items:
+            nxt = []
+            for s, items in alts:
+                saved = {n: s.env[n] for n in names if n in s.env}
+                self.bind_target(g.target, x, s)
+                for s2, v in self.ev(e.elt, s):
+                    for n in names:             # the loop variable is local to the comprehension
+                        if n in saved:
+                            s2.env[n] = saved[n]
+                        else:
+                            s2.env.pop(n, None)
+                    nxt.append((s2, items + [v]))
+            alts = nxt
+            if len(alts) > self.max_paths:
+                raise Unsupported("path explosion in a list comprehension")
+        return [(s, self.new_cell(s, PyListCell(items))) for s, items in alts]
 
     def comprehension(self, e, st):
         if len(e.generators) != 1 or e.generators[0].is_async:
